@@ -183,6 +183,7 @@ class World:
         ext["__getattr__"] = self.get_property
         ext["__getitem__"] = self.get_item
         ext["__bool__"] = self.truth
+        ext["__module_env__"] = self.module_env
         self.ext = ext
         while self._pending_modules:  # module-level containers / constants of the interpreted modules (shared state)
             self.load_globals(self._pending_modules.pop())
